@@ -61,8 +61,11 @@ def build_source(rng, cls):
         ms = ops.rand_members(rng, pool, 1, 3)
         net.add_edge((ms[:1], ms[1:]) if cls == "DiHypergraph" else ms, idx=tid)
         hist.append(f".add_edge(..., idx={tid})")
-    if rng.random() < 0.3:
-        i = rng.choice((0, 9, 4))
+    if rng.random() < 0.45:
+        import numpy as np
+
+        # IDs that compare equal to ints but are not Python ints, ID 0, IDs above the edge count
+        i = rng.choice((0, 9, 4, np.int64(7), np.int64(12), 6.0, 11.0, True, np.int32(5)))
         if i not in net.edges:
             ms = ops.rand_members(rng, pool, 2, 3)
             if cls == "SimplicialComplex":
@@ -198,7 +201,7 @@ def run_case(mon, kind, idx, rng):
             return
     # (4) both keep assigning fresh IDs
     for name, N in (("source", X), ("derived", Y)):
-        for _ in range(rng.randint(1, 3)):
+        for _ in range(rng.randint(2, 6)):
             pre = snap.snap(N, order=False)[2]
             pool = list(N.nodes)[:4] or [0, 1]
             ms = ops.rand_members(rng, pool + [pool[0]], 1, 3)
